@@ -2,6 +2,8 @@ CONSTANTS DSpan = 40
           NDay = 14
           MJMax = 36
           MYears = {1999, 2000}
+          WSpanAbs = {0, 1, 2, 3, 4, 5, 6, 7, 8, 9, 14, 15}
+          WKAbs = {1, 2, 3, 5, 7, 14}
 SPECIFICATION Spec
 PROPERTY Termination
 INVARIANT StrictlyMonotone
@@ -19,3 +21,6 @@ INVARIANT FinalExplained
 INVARIANT IntTdDaySame
 INVARIANT EveryKthWeekday
 INVARIANT MachineIsFunction
+INVARIANT SpellingsSame
+INVARIANT WholeDayClosed
+INVARIANT ShortSpanIsT0
